@@ -136,7 +136,10 @@ def run_shard_main(prop, tier, seed, spec_file, out_file):
         ctx = Ctx(prop, tier, seed, spec["shard"], spec)
         mon.start(REPO)
         try:
-            mod.run(spec, ctx)
+            if spec.get("kind") == "__witnesses__":
+                replay_witnesses(prop, mod, ctx)
+            else:
+                mod.run(spec, ctx)
         finally:
             cov = mon.stop()
         res = ctx.result()
@@ -151,6 +154,32 @@ def run_shard_main(prop, tier, seed, spec_file, out_file):
     res["wall_s"] = time.time() - t0
     with open(out_file, "w") as f:
         json.dump(res, f, ensure_ascii=True, default=repr)
+
+
+def witness_files(prop):
+    d = os.path.join(VERIF, "witnesses")
+    if not os.path.isdir(d):
+        return []
+    out = []
+    for fn in sorted(os.listdir(d)):
+        if fn.endswith(".json"):
+            with open(os.path.join(d, fn)) as f:
+                rec = json.load(f)
+            if rec.get("property") == prop:
+                out.append((fn, rec))
+    return out
+
+
+def replay_witnesses(prop, mod, ctx):
+    """Deterministic regression shard: the minimal witnesses of defects that were found
+    (and repaired) are replayed on every run."""
+    for fn, rec in witness_files(prop):
+        before = ctx.viol_total
+        mod.replay(rec["case"], ctx)
+        ctx.count("witnesses_replayed")
+        if ctx.viol_total > before:
+            ctx.count("witnesses_violating")
+            ctx.notes.append("witness %s violates: %s" % (fn, rec.get("what")))
 
 
 def merge(results):
@@ -286,7 +315,9 @@ def main(argv=None):
         print("replay: no violation on this tree")
         return 0
 
-    specs = mod.plan(tier, seed)
+    specs = list(mod.plan(tier, seed))
+    if witness_files(prop):
+        specs.append({"kind": "__witnesses__"})
     timeout = getattr(mod, "SHARD_TIMEOUT", {"quick": 600, "thorough": 3600})[tier]
     results = run_shards(prop, tier, seed, specs, args.jobs, timeout)
     m = merge(results)
